@@ -11,7 +11,7 @@ import sys
 import time
 
 ROOT = os.path.dirname(os.path.dirname(os.path.abspath(__file__)))
-sys.path.insert(0, '/repo/src')
+sys.path.insert(0, os.environ.get('PLUMPY_SRC', '/repo/src'))
 sys.path.insert(0, os.path.join(ROOT, 'harness'))
 os.environ.setdefault('PYTHONHASHSEED', '0')
 
